@@ -102,6 +102,11 @@ ClauseNames ==
     "C20_only_grow", "C20_confined", "C20_live_only",
     "C01_serial", "C01_no_double", "C01_outcomes", "C01_winner_holds",
     "C02_serial", "C02_wholelines", "C02_nowait", "C02_busy_fast", "C07_final", "C13_reader",
+    "C03_acked_survive",
+    "C09_serial",
+    "C10_serial",
+    "C14_final",
+    "C16_prune_truth",
     "C03_readable", "C03_only_own_missing", "C03_continues", "C04_all_or_nothing",
     "R_step", "R_reply", "R_time", "R_preview", "R_faillog" }
 
@@ -164,6 +169,11 @@ Eval(n, o) ==
     [] n = "C02_busy_fast" -> Cn!C02_busy_fast(o)
     [] n = "C07_final" -> Cn!C07_final(o)
     [] n = "C13_reader" -> Cn!C13_reader(o)
+    [] n = "C03_acked_survive" -> Cn!C03_acked_survive(o)
+    [] n = "C09_serial" -> Cn!C09_serial(o)
+    [] n = "C10_serial" -> Cn!C10_serial(o)
+    [] n = "C14_final" -> Cn!C14_final(o)
+    [] n = "C16_prune_truth" -> Cn!C16_prune_truth(o)
     [] n = "C03_readable" -> Cn!C03_readable(o)
     [] n = "C03_only_own_missing" -> Cn!C03_only_own_missing(o)
     [] n = "C03_continues" -> Cn!C03_continues(o)
@@ -177,6 +187,11 @@ Eval(n, o) ==
 \* the clauses the harness asked for on this record (all, unless it names some)
 ConcNames == {"C01_serial", "C01_no_double", "C01_outcomes", "C01_winner_holds",
               "C02_serial", "C02_wholelines", "C02_nowait", "C02_busy_fast", "C07_final", "C13_reader",
+              "C03_acked_survive",
+              "C09_serial",
+              "C10_serial",
+              "C14_final",
+              "C16_prune_truth",
               "C03_readable", "C03_only_own_missing", "C03_continues", "C04_all_or_nothing"}
 Wanted(r) == IF "only" \in DOMAIN r THEN ToSet(r.only) \cap ClauseNames ELSE ClauseNames \ ConcNames
 
